@@ -3,7 +3,7 @@ import re
 from . import register
 from ..analysis import (backslice, aggregates, agg_field, switch_targets_bool, count_nots, closure_creation, forward_locals,
                         direct_field, direct_def, switch_on_result_of, return_variants_from, classify_result, slice_const_values)
-from ..facts import op_local, op_place, op_const, const_val
+from ..facts import op_local, op_place, op_const, const_val, const_int
 
 DOC = {
     'explanation': 'Round-trip equality over all strings is not decidable here. Decided: per report field the reader applies the inverse of the writer\'s codec (R1); the payload handed '
@@ -127,6 +127,25 @@ def r1(ctx, lib, wt, rh, rp):
         ctx.check(bool(wfmt) and wfmt == rfmt, rule, RH + '|timestamp', (fm[0].where() if fm else wt.where()), 'timestamp: format(%s) <-> parse_from_str(%s)' % (sorted(wfmt), sorted(rfmt)), 'timestamp written with %s, parsed with %s' % (sorted(wfmt), sorted(rfmt)))
         used = any(x.matches(r'parse_timestamp$') for _, x in deep_slice_calls(lib, rh, [agg_field(hs, 'timestamp')], 0))
         ctx.check(used, rule, RH + '|timestamp-parsed', rh.where(hs['line']), 'header.timestamp = parse_timestamp(..)', 'the header timestamp is not parsed from the Timestamp line')
+        # the offset: `%z` and RFC 3339 (JSON) write hours and minutes only, so the offset of the value that is written must have no seconds
+        wr = lib.body('group::write_report_with_timestamp')
+        hdr = [st for blk in (wr.blocks if wr is not None else []) if not blk['cleanup'] for st in blk['stmts']
+               if st['rv']['k'] == 'agg' and st['rv'].get('adt', '').endswith('report::ReportHeader')]
+        if wr is not None and hdr:
+            tsl = backslice(wr, [agg_field(hdr[0], 'timestamp')])
+            whole = False
+            for blk in wr.blocks:
+                for st in blk['stmts']:
+                    rv = st['rv']
+                    if rv['k'] == 'bin' and rv['op'] in ('Rem', 'Div') and const_int(rv['b']) == 60 and st['p'][0] in tsl.locals:
+                        whole = True
+            utc = tsl.has_call(r'chrono::Utc|with_timezone::<Utc>|naive_utc$') and not tsl.has_call(r'DateTime::<Tz>::offset$|DateTime<.*>::offset$')
+            ctx.check(whole or utc, rule, 'group::write_report_with_timestamp|offset-in-whole-minutes', wr.where(hdr[0]['line']),
+                      'the offset of the header time stamp is cut to whole minutes (or UTC) before it is written',
+                      'the header time stamp keeps the local UTC offset as it is: `%z` (text) and RFC 3339 (JSON) print an offset in hours and minutes, chrono rounds the seconds away, and the instant '
+                      'read back differs by up to 30 s from the start of the scan (TZ="XXX-0:00:29"): a file rewritten 3 s after `group` is no longer seen as modified by `remove`')
+        else:
+            ctx.missing(rule, 'ReportHeader construction in write_report_with_timestamp')
         tf = lib.body('TIMESTAMP_FMT')
         if tf is not None:
             vals = [const_val(s['rv']['op']) for blk in tf.blocks for s in blk['stmts'] if s['rv']['k'] == 'use' and const_val(s['rv']['op'])]
